@@ -185,6 +185,17 @@ CHECKS["C27"] = (
     "DESIGN.md §6 C27",
 )
 
+CHECKS["C24"] = (
+    "Lean 4 theorems: the assembly of per-file results (routing, counters, exit code) is invariant under every permutation of worker "
+    "completion, and the per-file results are the same set. That a file's result does not depend on the worker, the pickled config or "
+    "the arrival order (PerFileFunctional) is sampled: real runs with 1/2/4 processes, seeded per-file worker delays injected through the "
+    "guarded hook in ParallelRunner._apply and permuted path lists are compared file by file (violations, fixed contents, exit, skips) "
+    "with the serial run. Partial: the schedule space is sampled, OS scheduling is not modelled.",
+    "Lean 4 proof (List.Perm induction over the assembly fold) + schedule-steered differential runs",
+    "Lean kernel; standard axioms; multiprocessing/OS scheduler unmodelled; hook guarded by SQLFLUFF_VERIF=1",
+    "DESIGN.md §6 C24",
+)
+
 NOT_YET = {}
 
 
@@ -214,9 +225,9 @@ def main():
         "setup_cmd": "./check --setup",
         "hooks": {
             "guard": "SQLFLUFF_VERIF",
-            "enable": "export SQLFLUFF_VERIF=1 (the ./check wrapper sets it); sqlfluff is installed editable from /repo so no rebuild is needed",
+            "enable": "export SQLFLUFF_VERIF=1 (the ./check wrapper sets it) and, for the worker-delay hook, SQLFLUFF_VERIF_DELAY_SEED=<int>; sqlfluff is installed editable from /repo so no rebuild is needed",
             "baseline_off_cmd": "cd /repo && env -u SQLFLUFF_VERIF /venv/bin/python -m pytest -ra -q -p no:cacheprovider --timeout=900 --continue-on-collection-errors",
-            "source_commits": [],
+            "source_commits": ["a964fe3"],
             "add_only": True,
         },
         "engines": [{
